@@ -133,6 +133,15 @@ Proof.
     rewrite nth_error_snoc_new in H. split; congruence.
 Qed.
 
+Lemma In_upd_nth {A} (l : list A) j x y : In x (upd_nth j y l) -> x = y \/ In x l.
+Proof.
+  revert j. induction l as [|a l IH]; intros j H; [destruct j; destruct H|].
+  destruct j as [|j]; cbn [upd_nth] in H.
+  - destruct H as [<-|H]; [left; reflexivity|right; right; assumption].
+  - destruct H as [<-|H]; [right; left; reflexivity|].
+    destruct (IH _ H) as [->|Hin]; [left; reflexivity|right; right; assumption].
+Qed.
+
 Lemma nth_error_lt {A} (l : list A) i y : nth_error l i = Some y -> (i < length l)%nat.
 Proof. intro H. apply nth_error_Some. congruence. Qed.
 
@@ -169,7 +178,9 @@ Record InvC (s : st) : Prop := {
   C_dead : loop_dead s = true -> proc s = PIdle;
   C_closed : closed s = true -> loop_dead s = true;
   C_cl : cl s = CWantLock -> loop_dead s = true;
-  C_fan : map (fval (hist s)) (fired s) = fanout s ++ tailv s
+  C_fan : map (fval (hist s)) (fired s) = fanout s ++ tailv s;
+  (* a further Close call that is past queue.Close has seen the loop dead *)
+  C_cl2 : forall id c, In (id, c) (cl2 s) -> c <> K2WaitLoop -> loop_dead s = true
 }.
 
 Definition Inv (iv : Z) (s : st) : Prop := InvD iv s /\ InvC s.
@@ -185,10 +196,11 @@ Qed.
 Lemma InvC_frame s s' :
   hist s' = hist s -> fired s' = fired s -> fanout s' = fanout s -> proc s' = proc s ->
   lock s' = lock s -> loop_dead s' = loop_dead s -> closed s' = closed s -> cl s' = cl s ->
+  cl2 s' = cl2 s ->
   InvC s -> InvC s'.
 Proof.
-  intros Hh Hf Hfo Hp Hl Hd Hc Hcl [c1 c2 c3 c4 c5].
-  constructor; unfold tailv; rewrite ?Hh, ?Hf, ?Hfo, ?Hp, ?Hl, ?Hd, ?Hc, ?Hcl; assumption.
+  intros Hh Hf Hfo Hp Hl Hd Hc Hcl Hcl2 [c1 c2 c3 c4 c5 c6].
+  constructor; unfold tailv; rewrite ?Hh, ?Hf, ?Hfo, ?Hp, ?Hl, ?Hd, ?Hc, ?Hcl, ?Hcl2; assumption.
 Qed.
 
 Lemma Inv_init iv : Inv iv init.
@@ -204,15 +216,16 @@ Proof.
   - discriminate.
   - discriminate.
   - reflexivity.
+  - intros id c [].
 Qed.
 
 (* ---------------------------------------------------------------------------------------- *)
 (* preservation, event by event *)
 
 Ltac sset :=
-  cbn [subs lock proc pending now qstopped loop_dead closed cl pend_subs fanout hist fired
+  cbn [subs lock proc pending now qstopped loop_dead closed cl pend_subs fanout hist fired cl2
        set_subs set_lock set_proc set_pending set_now set_qstopped set_loop_dead set_closed
-       set_cl set_pend_subs set_fanout set_hist set_fired] in *.
+       set_cl set_pend_subs set_fanout set_hist set_fired set_cl2] in *.
 
 Lemma fired_ids_lt iv s : InvD iv s ->
   forall i tp, In (i, tp) (fired s) -> (i < length (hist s))%nat.
@@ -305,7 +318,7 @@ Lemma batch_InvC iv s k v x :
   InvD iv s -> InvC s ->
   InvC (set_hist (set_pending s x) (hist s ++ [(k, v, now s)])).
 Proof.
-  intros HD [c1 c2 c3 c4 c5]. constructor; sset; try assumption.
+  intros HD [c1 c2 c3 c4 c5 c6]. constructor; sset; try assumption.
   change (tailv (set_hist (set_pending s x) (hist s ++ [(k, v, now s)]))) with (tailv s).
   rewrite <- c5. apply map_ext_in. intros [i tp] Hi. unfold fval; cbn [fst].
   rewrite nth_error_snoc_old; [reflexivity|]. eapply fired_ids_lt; eassumption.
@@ -317,7 +330,7 @@ Lemma pop_InvC iv s k p :
   InvC (set_fired (set_pending (set_proc s (PCall (p_val p))) (premove k (pending s)))
                   (fired s ++ [(p_id p, now s)])).
 Proof.
-  intros [d1 _ _ _ _] [c1 c2 c3 c4 c5] P LD Hl.
+  intros [d1 _ _ _ _] [c1 c2 c3 c4 c5 c6] P LD Hl.
   assert (L : lock s = Free).
   { destruct (lock s) eqn:L; [reflexivity|]. specialize (c1 _ _ eq_refl). congruence. }
   destruct (d1 _ _ (plookup_In _ _ _ Hl)) as (Hn & _ & _).
@@ -332,7 +345,7 @@ Qed.
 Lemma exec_adv_Inv iv s v idx x :
   Inv iv s -> lock s = Exec v idx -> Inv iv (set_lock (set_subs s x) (Exec v (S idx))).
 Proof.
-  intros [HD [c1 c2 c3 c4 c5]] L. split.
+  intros [HD [c1 c2 c3 c4 c5 c6]] L. split.
   - apply (InvD_frame iv s); [reflexivity..|exact HD].
   - constructor; sset; try assumption.
     + intros v0 idx0 [= <- _]. eapply c1; eassumption.
@@ -367,7 +380,7 @@ Proof.
   - (* CloseCall *)
     destruct (cl s) eqn:C; try discriminate. intros [= <-]. split.
     + apply (InvD_frame iv s); [reflexivity..|exact HD].
-    + destruct HC as [c1 c2 c3 c4 c5]. constructor; sset; try assumption. discriminate.
+    + destruct HC as [c1 c2 c3 c4 c5 c6]. constructor; sset; try assumption. discriminate.
   - (* Pop *)
     destruct (proc s) eqn:P; [|discriminate]. destruct (loop_dead s) eqn:LD; [discriminate|].
     destruct (plookup k (pending s)) as [p|] eqn:Hl; [|discriminate].
@@ -376,7 +389,7 @@ Proof.
     split; [apply pop_InvD | eapply pop_InvC]; eassumption.
   - (* ExecBegin *)
     destruct (proc s) as [|v] eqn:P; [discriminate|]. destruct (lock s) eqn:L; [|discriminate].
-    destruct HC as [c1 c2 c3 c4 c5].
+    destruct HC as [c1 c2 c3 c4 c5 c6].
     destruct (closed s) eqn:Cl; intros [= <-].
     + exfalso. rewrite (c2 (c3 eq_refl)) in P. discriminate.
     + split; [apply (InvD_frame iv s); [reflexivity..|exact HD]|].
@@ -404,7 +417,7 @@ Proof.
     destruct (lock s) as [|v idx] eqn:L; [discriminate|].
     destruct (nth_error (subs s) idx) as [b|]; [discriminate|]. intros [= <-].
     split; [apply (InvD_frame iv s); [reflexivity..|exact HD]|].
-    destruct HC as [c1 c2 c3 c4 c5]. constructor; sset; try assumption.
+    destruct HC as [c1 c2 c3 c4 c5 c6]. constructor; sset; try assumption.
     + discriminate.
     + reflexivity.
     + rewrite tailv_idle by reflexivity. rewrite (tailv_exec _ _ _ L) in c5. exact c5.
@@ -423,19 +436,47 @@ Proof.
   - (* CloseLoopDone *)
     destruct (cl s) eqn:C; try discriminate. destruct (proc s) eqn:P; [|discriminate].
     intros [= <-]. split; [apply (InvD_frame iv s); [reflexivity..|exact HD]|].
-    destruct HC as [c1 c2 c3 c4 c5]. constructor; sset; try assumption.
+    destruct HC as [c1 c2 c3 c4 c5 c6]. constructor; sset; try assumption.
     all: try (intros _; exact P).
     all: try (intros; reflexivity).
   - (* CloseLock *)
     destruct (cl s) eqn:C; try discriminate. destruct (lock s) eqn:L; [|discriminate].
     intros [= <-]. split; [apply (InvD_frame iv s); [reflexivity..|exact HD]|].
-    destruct HC as [c1 c2 c3 c4 c5]. constructor; sset; try assumption.
+    destruct HC as [c1 c2 c3 c4 c5 c6]. constructor; sset; try assumption.
     + intros _. apply c4. exact C.
     + discriminate.
   - (* CloseWait *)
     destruct (cl s) eqn:C; try discriminate. destruct (forallb _ _); [|discriminate].
     intros [= <-]. split; [apply (InvD_frame iv s); [reflexivity..|exact HD]|].
-    destruct HC as [c1 c2 c3 c4 c5]. constructor; sset; try assumption. discriminate.
+    destruct HC as [c1 c2 c3 c4 c5 c6]. constructor; sset; try assumption. discriminate.
+  - (* Close2Call *)
+    destruct (cl s) eqn:C; try discriminate.
+    all: intros [= <-]; split; [apply (InvD_frame iv s); [reflexivity..|exact HD]|].
+    all: destruct HC as [c1 c2 c3 c4 c5 c6]; constructor; sset; try assumption.
+    all: intros id0 c Hin Hc; apply in_app_iff in Hin as [Hin|[E|[]]];
+      [eapply c6; eassumption|inversion E; congruence].
+  - (* Close2LoopDone *)
+    destruct (nth_error (cl2 s) j) as [[id c]|] eqn:N; [|discriminate].
+    destruct c; try discriminate. destruct (loop_dead s) eqn:LD; [|discriminate].
+    intros [= <-]. split; [apply (InvD_frame iv s); [reflexivity..|exact HD]|].
+    destruct HC as [c1 c2 c3 c4 c5 c6]. constructor; sset; try assumption.
+    intros; exact LD.
+  - (* Close2Lock *)
+    destruct (nth_error (cl2 s) j) as [[id c]|] eqn:N; [|discriminate].
+    destruct c; try discriminate. destruct (lock s) eqn:L; [|discriminate].
+    intros [= <-]. split; [apply (InvD_frame iv s); [reflexivity..|exact HD]|].
+    destruct HC as [c1 c2 c3 c4 c5 c6].
+    assert (LD : loop_dead s = true).
+    { apply (c6 id K2WantLock); [eapply nth_error_In; eassumption|discriminate]. }
+    constructor; sset; try assumption; intros; exact LD.
+  - (* Close2Wait *)
+    destruct (nth_error (cl2 s) j) as [[id c]|] eqn:N; [|discriminate].
+    destruct c; try discriminate. destruct (forallb _ _); [|discriminate].
+    intros [= <-]. split; [apply (InvD_frame iv s); [reflexivity..|exact HD]|].
+    destruct HC as [c1 c2 c3 c4 c5 c6].
+    assert (LD : loop_dead s = true).
+    { apply (c6 id K2WaitFwd); [eapply nth_error_In; eassumption|discriminate]. }
+    constructor; sset; try assumption; intros; exact LD.
 Qed.
 
 Theorem reachable_Inv vr iv s : reachable vr iv s -> Inv iv s.
@@ -570,7 +611,7 @@ Definition ex_events : list ev :=
 
 Definition ex_state : st :=
   mkSt [] Free PIdle [(2, (7, 14, 2%nat))] 13 false false false CNone [] [6]
-       [(1, 5, 0); (1, 6, 3); (2, 7, 4)] [(1%nat, 13)].
+       [(1, 5, 0); (1, 6, 3); (2, 7, 4)] [(1%nat, 13)] [].
 
 Example ex_run : forall vr, run vr 10 init ex_events = Some ex_state.
 Proof. intros []; vm_compute; reflexivity. Qed.
@@ -606,6 +647,9 @@ Proof.
   - (* Pop *) unfold step. cbn [proc loop_dead pending ex_state now].
     rewrite plookup_cons. destruct (Z.eqb_spec 2 k) as [<-|Hne]; reflexivity.
   - (* SubscribeLocked *) unfold step. cbn [lock pend_subs ex_state]. destruct j; reflexivity.
+  - (* Close2LoopDone *) unfold step. cbn [cl2 ex_state]. destruct j; reflexivity.
+  - (* Close2Lock *) unfold step. cbn [cl2 ex_state]. destruct j; reflexivity.
+  - (* Close2Wait *) unfold step. cbn [cl2 ex_state]. destruct j; reflexivity.
 Qed.
 
 Example ex_quiescent : forall k p, In (k, p) (pending ex_state) -> now ex_state < p_due p.
